@@ -186,3 +186,63 @@ Definition scenario_report (p : prog) (c : cfg) (t post : tree) (obs : list oste
   : bool * bool * bool * list (option nat) * list (list (N * N)) :=
   (log_perm (model_log p c t) obs, check_trace p c t ops, check_final p c t post,
    align (model_log p c t) obs, predict_obs p c t obs js).
+
+(** * small concrete instances (non-vacuity examples and witnesses of the known findings) *)
+Definition xs (s : string) : fseg := b s.
+Definition ex_so : fpath := [xs "stg"; xs "o"].
+Definition ex_mo : fpath := [xs "root"; xs "o"].
+Definition ex_d10 : fseg := xs "0=ocfl_object_1.0".
+Definition ex_d11 : fseg := xs "0=ocfl_object_1.1".
+Definition ex_cfg : cfg :=
+  mkCfg [xs "stg"; xs "locks"] (xs "o.lock") ex_so ex_mo (xs "inventory.json") (xs "inventory.json.sha512")
+        (xs "content") 7 8 9 (xs "v3") ex_d11.
+
+Definition ex_man : list fpath := [[xs "v2"; xs "content"; xs "a"]; [xs "v2"; xs "content"; xs "d"; xs "b"]].
+Definition ex_dups : list fpath := [[xs "v2"; xs "content"; xs "d"; xs "b"]].
+(** second version of an existing object; one new file, one duplicate (alone in its directory) of committed content *)
+Definition ex_inv (spec : fseg) : invr := mkInv 5 [xs "v1"; xs "v2"] spec ex_man ex_dups.
+Definition ex_oldinv : content := CInv 3 [xs "v1"] ex_d10 [[xs "v1"; xs "content"; xs "b"]] [].
+
+Definition ex_tree (spec : fseg) : tree :=
+  [ ([xs "stg"], Dir); ([xs "stg"; xs "locks"], Dir); (ex_so, Dir);
+    (ex_so ++ [xs "inventory.json"], File (tok_of (ex_inv spec)));
+    (ex_so ++ [xs "inventory.json.sha512"], File (CSide 5));
+    (ex_so ++ [ex_d10], File (CDecl ex_d10));
+    (ex_so ++ [xs "v2"], Dir); (ex_so ++ [xs "v2"; xs "content"], Dir);
+    (ex_so ++ [xs "v2"; xs "content"; xs "a"], File (CBlob 1));
+    (ex_so ++ [xs "v2"; xs "content"; xs "d"], Dir);
+    (ex_so ++ [xs "v2"; xs "content"; xs "d"; xs "b"], File (CBlob 2));
+    ([xs "root"], Dir); (ex_mo, Dir);
+    (ex_mo ++ [ex_d10], File (CDecl ex_d10));
+    (ex_mo ++ [xs "inventory.json"], File ex_oldinv);
+    (ex_mo ++ [xs "inventory.json.sha512"], File (CSide 3));
+    (ex_mo ++ [xs "v1"], Dir);
+    (ex_mo ++ [xs "v1"; xs "inventory.json"], File ex_oldinv);
+    (ex_mo ++ [xs "v1"; xs "inventory.json.sha512"], File (CSide 3));
+    (ex_mo ++ [xs "v1"; xs "content"], Dir);
+    (ex_mo ++ [xs "v1"; xs "content"; xs "b"], File (CBlob 2)) ].
+
+(** a first version: nothing in the main repository yet, staged under the 1.0 declaration *)
+Definition ex1_inv (spec : fseg) : invr := mkInv 5 [xs "v1"] spec [[xs "v1"; xs "content"; xs "a"]] [].
+Definition ex1_tree (spec : fseg) : tree :=
+  [ ([xs "stg"], Dir); ([xs "stg"; xs "locks"], Dir); (ex_so, Dir);
+    (ex_so ++ [xs "inventory.json"], File (tok_of (ex1_inv spec)));
+    (ex_so ++ [xs "inventory.json.sha512"], File (CSide 5));
+    (ex_so ++ [ex_d10], File (CDecl ex_d10));
+    (ex_so ++ [xs "v1"], Dir); (ex_so ++ [xs "v1"; xs "content"], Dir);
+    (ex_so ++ [xs "v1"; xs "content"; xs "a"], File (CBlob 1));
+    ([xs "root"], Dir) ].
+
+(** class of the main object and result of every position of a program *)
+Definition sweep (m : M unit) (c : cfg) (t : tree) (mk : nat -> inj) (n : nat) : list (N * N) :=
+  let tnew := run_tree m t NoInj in
+  map (fun k => let r := run m t (mk k) in (class_of c t tnew (w_tree (snd r)), res_code (fst r))) (List.seq 0 n).
+
+(** the hypotheses of the property theorems, evaluated on a real pre-state: (commit_pre, same_type) for the
+    staged inventory found in the tree *)
+Definition pre_check (c : cfg) (t : tree) : bool * bool :=
+  match read_file t (c_so c ++ [c_inv c]) with
+  | Some (CInv k vs sp man dups) =>
+      let i := mkInv k vs sp man dups in (commit_pre_b c t i, same_type_b c t i)
+  | _ => (false, false)
+  end.
